@@ -28,7 +28,7 @@ _RE_WHITESPACE_SEPARATED_WORD_LIST = re.compile(r'''
                                          # pattern to the remaining text). This is mostly here as
                                          # a fail-safe.
 
-    (?P<word>\S+)                        # Consume the word (if present)
+    (?P<word>\S+)?                       # Consume the word (if present)
     (?P<trailing_whitespace>\s*)         # Consume trailing whitespace
 ''', re.VERBOSE)
 _RE_COMMA_SEPARATED_WORD_LIST = re.compile(r'''
@@ -451,7 +451,8 @@ def whitespace_split_tokenizer(v):
         space_before, word, space_after = match.groups()
         if space_before:
             yield Deb822SpaceSeparatorToken(sys.intern(space_before))
-        yield Deb822ValueToken(word)
+        if word:
+            yield Deb822ValueToken(word)
         if space_after:
             yield Deb822SpaceSeparatorToken(sys.intern(space_after))
 
